@@ -265,6 +265,9 @@ FAULTS = [
     ("escape-x-swallows-newline", lambda L: (L[:10] + ["var s = \"\\x", "1\";", "var t = ;"] + L[11:], {"all": [(11, 12), 13]})),
     ("escape-u-swallows-newline", lambda L: (L[:10] + ["var s = \"\\u00", "41\";", "var t = ;"] + L[11:], {"all": [(11, 12), 13]})),
     ("escape-U-swallows-newline", lambda L: (L[:10] + ["var s = \"ab\\U0000", "0041\";", "print(s", "var t = ;"] + L[11:], {"all": [(11, 12), 14]})),
+    # F51: the line end is consumed as the character after `\` / after `$` (both errors): what follows is on the next line all the same
+    ("backslash-newline-in-string", lambda L: (L[:10] + ["var s = \"abc\\", "def\" + \";", "var t = ;"] + L[11:], {"all": [11, 13]})),
+    ("dollar-newline-in-string", lambda L: (L[:10] + ["var s = \"abc$", "def\" + \";", "var t = ;"] + L[11:], {"all": [11, 13]})),
     ("static-with-self", lambda L: (L[:6] + ["    #[static]", "    fn m(self) {"] + L[7:], 8)),
 ]
 
@@ -423,6 +426,18 @@ def correspondence(ctx, model_ok=True):
         if c[0] != "err" or c[1] != "CompileError" or not c[3] or not any(c[3][0].startswith("[module \"main\", line %d]" % l) for l in lines_ok) or c[2]:
             failures.append({"what": "compile error for fault '%s' does not name line %s first (or code ran)" % (name, line), "program": src,
                              "expected_line": list(lines_ok), "observed": c, "signature": "compile-error line: " + name, "failing_input": True})
+    # compile errors whose TEXT names a token: it must be the offending one (F52: "Duplicate attribute" named the token before it)
+    named = [
+        ("duplicate-attribute-with-arguments", "#[derive(Object),\n  derive(Object)]\nclass A {\n}\n", "[module \"main\", line 2] Error at 'derive': Duplicate attribute 'derive'."),
+        ("duplicate-attribute-without-arguments", "class K {\n    #[static,\n      static]\n    fn s() {}\n}\n", "[module \"main\", line 3] Error at 'static': Duplicate attribute 'static'."),
+        ("unsupported-attribute", "#[frobnicate]\nclass A {}\n", "[module \"main\", line 1] Error at 'frobnicate': Unsupported class attribute 'frobnicate'."),
+    ]
+    nres, _ = progs.run_programs(ctx.runner, [(n, s_, {}) for n, s_, _ in named], {"gc": "default"}, tag="n")
+    for (name, src, want), r in zip(named, nres):
+        c = progs.canon_step(r)
+        if c[0] != "err" or c[1] != "CompileError" or not c[3] or c[3][0] != want:
+            failures.append({"what": "compile error '%s' reads %s, expected %r" % (name, list(c[3])[:1] if len(c) > 3 else c, want), "program": src,
+                             "expected_message": want, "observed": c, "signature": "compile-error text: " + name, "failing_input": True})
     cov = {
         "evaluations": 2 * n_tr + len(host) + len(cat) + len(ucat), "uncaught_builtin_failures": len(ucat),
         "distinct_nontrivial": len(nontrivial),
@@ -450,6 +465,8 @@ def replay(ctx, payload):
         return False, "nothing to replay"
     r, _ = progs.run_programs(ctx.runner, [("r", payload["program"], payload.get("modules", {}))], {"gc": "default"})
     c = progs.canon_step(r[0])
+    if "expected_message" in payload:
+        return (c[0] == "err" and len(c) > 3 and bool(c[3]) and c[3][0] == payload["expected_message"]), str(c)[:500]
     if "expected_trace" in payload:
         t = payload["expected_trace"]
         ok = c[0] == "err" and c[1] == payload["expected_kind"] and trace_matches(list(c[3])[-len(t):], t) and (payload["expected_first"] is None or c[3][0] == payload["expected_first"])
